@@ -1,11 +1,12 @@
 import LolHtml.Lane.Echo
 import LolHtml.Lane.Mem
+import LolHtml.Lane.MemTs
 
 namespace LolHtml.Lane
 
 /-- Registry of correspondence lanes: name ↦ one-line-in, one-line-out model runner. -/
 def registry : List (String × (String → String)) :=
-  [ ("echo", Echo.run), ("mem", Mem.run) ]
+  [ ("echo", Echo.run), ("mem", Mem.run), ("memts", MemTs.run) ]
 
 def find (name : String) : Option (String → String) :=
   (registry.find? (·.1 == name)).map (·.2)
